@@ -100,6 +100,7 @@ pub fn profile_for(prop: &str, tier: &str) -> Profile {
             p.w_macro = [0, 1, 0, 12, 2, 0, 2, 0, 0, 0, 0];
             p.macro_pct = 25;
             p.partial_choices = vec![0, 250_000, 500_000, 950_000, 1_000_000, 250_000];
+            p.exact_edge_pct = 25;
         }
         "C16" => {
             p.w_macro = [0, 10, 0, 0, 6, 0, 1, 0, 0, 0, 0];
